@@ -356,8 +356,10 @@ func c08Check(c *oracleCtx, src, cfg string, steer bool) {
 			// history: the same Compiler object has compiled another program before (a map belongs to one compilation)
 			if warm, werrs := oaParse("let warm = up(1)\nwarm++\n"); len(werrs) == 0 {
 				comp.Compile(warm)
+				// … and then the program itself once (its identifiers have been seen before, at other name indexes)
+				comp.Compile(prog)
 				input["warm"] = true
-				input["history"] = "the same Compiler compiled `let warm = up(1)⏎warm++` first"
+				input["history"] = "the same Compiler compiled `let warm = up(1)⏎warm++` and then this program first"
 			}
 		}
 		res := comp.Compile(prog)
